@@ -557,3 +557,120 @@ def register(reg):
       "(stale stored lookup after a type change of the key column of an EMPTY table, known_findings.json).",
       "Lean 4 theorems (bin-type contract + relational invariant of TwoWayMap; event-machine invariant with ghost dirty "
       "sets; uniqueness of the sorted permutation) + differential correspondence on instrumented live objects + direct oracle")
+
+  reg("C19", "proof",
+      "codebuilder.make_formula_body is modelled on top of the C37 Textbuilder model with CPython's parser, asttokens' "
+      "positions and astroid's re-parse as PARAMETERS (recorded from the real run): dedent, DOLLAR translation, $->rec. / lazy "
+      "lambda / return / pass patches via map_back_offset, _indent, multi-line-string un-indent, _create_syntax_error_code "
+      "(LineNumbers, splitlines lookup, comment regexp incl. the lone-CR fix, raise line). Proved for all texts: _indent "
+      "prefixes exactly the non-blank '\\n'-lines and changes nothing else (indent_preserves_lines); every physical line "
+      "(split at \\n, \\r\\n, lone \\r) of the commented text starts with '# ' (commentize_every_line); the stub is comment "
+      "lines + one raise, also after indentation (stub_is_comments_plus_raise, indented_stub_is_comments_plus_raise); "
+      "the stub is produced whenever the error has a line number and the line exists (stub_total_partial); "
+      "_do_make_formula_body returns default / stub / the formula with only documented patches (body_only_documented_edits_partial, "
+      "dollar_patches_are_dollars, edited_body_text via C37); in a Combiner-assembled module each body owns its range and "
+      "map-back stays inside it (module_isolation, module_spanning_refused). FALSE and proved so with witnesses: indentation "
+      "reaches every physical line (indent_all_physical_lines_is_false: lone CR), the stub is always produced "
+      "(stub_fails_without_lineno: NUL). Differentially validated only: model == real make_formula_body (text / exception, "
+      "parser input, map_back_patch) on curated + grammar + junk streams; the property itself (bundle succeeds, other columns "
+      "untouched and still recomputing, junk column holds SyntaxError values, valid formulas evaluate like an independent "
+      "translation + exec) on the real code at function and engine level. Five known findings (lone CR in a valid formula incl. "
+      "an accepted bundle that replaces other columns' formulas; parser-ok/compiler-error formulas; NUL; deep nesting; dedent "
+      "coordinate mix-up IndexError).",
+      "parser / asttokens / astroid are parameters; friendly-traceback text absent (shim); no lone surrogates; lazy functions "
+      "compared at engine level only with total arguments; `$name` in f-string fields, after '.', or glued to an identifier is "
+      "not judged by the oracle.",
+      "Lean 4 theorems (induction over characters / lines / patch lists, C37 theorems reused) + recorded-parser differential + engine-level oracle")
+
+  reg("C17", "proof",
+      "process_renames, the three entity collectors and renamers, and the colIds / lookupColId updates are modelled on top "
+      "of the Textbuilder and TreeConverter models (Grist.PredRename). Proved for all printed formulas (lexeme lists), all "
+      "collectors, contexts and rename sets: process_renames_exact (the returned text is the same lexemes with exactly the "
+      "name tokens of the denoted, renamed references replaced; the Replacer / dollar map-back never errs), "
+      "renamed_is_printed + rename_reparses (given that Python's parsers read the printed formula before and after, the new "
+      "text parses to the old tree with exactly those references renamed), only_name_tokens_change, "
+      "convert_commutes_with_rename (stored parsed form), unsupported_untouched / unparsable_untouched_partial (the full "
+      "clause is false of the code: unparsable_untouched_full_is_false, witness replayed), resource_colIds_renamed, "
+      "lookupColId_renamed. Differentially validated only: the parser/asttokens parameters (Python ast and asttokens "
+      "positions on the old and the renamed text) and model = code on generated formulas (function level) and through a "
+      "live engine (RenameColumn / RenameTable / label / bulk colId updates on documents with ACL rules, user attributes, "
+      "dropdown conditions, trigger conditions), with an independent oracle based on CPython's own ast positions.",
+      "parameters: Python tokenizer/parser, asttokens token positions, get_dollar_replacer's `$` detection; ASCII column "
+      "ids; colIds lists without blanks; one rename action per bundle at engine level; summary-table renames not exercised.",
+      "Lean 4 theorems over lexeme lists + Textbuilder model (C37) + TreeConverter model (C40); differential correspondence")
+
+  reg("C23", "proof",
+      "One cell through docactions.ModifyColumn + useractions.doModifyColumn is modelled (GristModel/PyVal.lean: modifyCell = raw "
+      "copy through column.set, column.convert, strict_equal test, set; colSet, colConvert, strictEq). Proved for all values and "
+      "target types: modify_type_cells (the cell encodes like colSet(convert(old)) unless strict_equal hides a difference through "
+      "True==1 / 0.0==0; modify_type_cells_false is the proved counterexample [True, 2] -> RefList), modify_type_cells_scalar "
+      "(no exclusion for Text/Choice/Bool/Int), modify_type_range_partial (new cell is right-type / error / text unless it is a "
+      "text in a ChoiceList/RefList column; modify_type_range_false), modify_type_aborts (int beyond float range aborts a change "
+      "to Numeric), modify_type_frame/modify_type_column (table level: only the changed column's cells change). Differentially "
+      "validated and searched on the live engine: all 110 ordered type pairs x both paths (ModifyColumn, UpdateRecord on "
+      "_grist_Tables_column) x adversarial contents, two-way reference pairs; every cell is tied to the model, compared with an "
+      "independent usertypes conversion of the pre-bundle value, all other data cells and the stored actions are checked.",
+      "oracle conversion = usertypes.<NewType>.convert after the documented Ref/RefList adaptation; encodings compared with int/float "
+      "normalised (the drift is the C01/C03 finding); documented refusals (two-way reference to non-reference type, UNIQUE) are outside "
+      "the property; 4 known findings (known_findings.json).",
+      "Lean 4 case analysis over value shapes and column types + live-engine differential check + direct oracle")
+
+  reg("C07", "proof",
+      "Value level proved on GristModel/PyVal.lean: dbDecode_eq_decode (_decode_db_value after marshalling is decode_object), "
+      "colSet_idem (column.set normalisations are idempotent), reload_encode (the reloaded cell encodes exactly like the saved "
+      "one; uses C24's round trip), reload_value_stable (equal_encoding(reloaded, recomputed) holds for every column type and "
+      "formula result, so Calculate emits nothing, provided no NaN is nested in a list/dict and the value is not a text that "
+      "ChoiceList/RefList set() parses again; both exclusions have proved counterexamples replayed on the real code). The deciding "
+      "comparison is equal_encoding (strict_equal only pre-filters). Differentially validated: real column objects x value tables "
+      "through convert/set/encode/marshal/_decode_db_value/set vs the model. Searched only (document level): seeded formula-heavy "
+      "histories, the document is saved by the prescribed cell-level procedure and reopened after every bundle: Calculate must "
+      "store nothing and all tables must be equal.",
+      "save procedure fixed by the property (scalars as themselves, compound encodings as marshalled blobs, _decode_db_value on load); "
+      "Node-side number typing excluded; no volatile/trigger formulas generated; int/float drift is the C01/C03 finding; recomputation "
+      "being a function of the data is C05's theorem; 4 known findings (known_findings.json).",
+      "Lean 4 proofs over the value universe (reusing C24's round trip) + differential value-level check + history-based reload search")
+
+  reg("C16", "proof",
+      "Formula language FExpr (GristModel/FormulaRename.lean): int/str literals, + - * == != < <=, rec, loop variables, "
+      "$col, e.col (rec.col, reference chains, attributes of lookup results / record sets), T.lookupRecords/lookupOne(k=e, ..., "
+      "order_by=\"c\"|\"-c\"|tuple), T.all, [body for x in recordset], len/sum/max, PREVIOUS/NEXT/RANK(e, group_by=, order_by=), "
+      "IF; every name occurrence annotated with the table it is resolved in; a printer into text pieces with denotations, "
+      "rendering with arbitrary trivia, the renaming of the tree, a dynamic (Python-like) evaluator over documents with "
+      "Int/Text/Ref/RefList columns, a schema-directed typing HasTy with a computable checker, and "
+      "UserActions._prepare_formula_renames on top of the C37 Replacer model. PROVED for all documents, rows, variable "
+      "bindings, well-typed formulas, trivia and fresh non-empty new ids (values: also Ren.Safe = new column id not order_by/sort_by, "
+      "table ids not IF/PREVIOUS/NEXT/RANK; without it the value clause is FALSE of the code: negations "
+      "rename_to_reserved_keyword_is_false / rename_to_function_name_is_false proved with witnesses that are replayed on the "
+      "real engine): eval_type_sound (the run-time table of every record "
+      "is the statically assigned one), rename_preserves_eval (renamed formula in renamed document = original value keyed "
+      "through the rename), rename_column_value_identical / rename_scalar_value_identical (literally identical values), "
+      "print_rename_eq_patch (what _prepare_formula_renames stores = print of the renamed tree, for every order of the "
+      "discovered occurrences; uses C37 replacer_text_eq_applyPatches), rename_text_outside_patches (C37 only_patched_changed), "
+      "rename_only_denoting_tokens / rename_denoting_tokens (same pieces; exactly the pieces denoting the renamed entity are "
+      "respelled), checked_hasTy (the driver's checker is sound). ONLY DIFFERENTIALLY VALIDATED: that astroid's "
+      "parse_grist_names discovers exactly the annotated occurrences (gencode.grist_names() vs generator ground truth on every "
+      "generated formula), that the model printer/evaluator equal the real text and the real engine's cell values (before and "
+      "after every rename), and the stored new formula vs print(rename e). Direct oracle on the real engine for every rename path "
+      "(RenameColumn, RenameTable, UpdateRecord/BulkUpdateRecord colId, label with tied colId, tableId): all cells equal keyed "
+      "through the rename; new text = old text with exactly the ground-truth occurrences replaced (char level + tokenize diff).",
+      "Fresh new id (C21) and HasTy are hypotheses; formulas mention data columns, id and typed formula columns; manualSort = row "
+      "order; no floats; RefList lookups (CONTAINS), find.*, sort_by and $group are outside the grammar; eval = what a freshly "
+      "loaded engine computes (no caches). Six recorded findings (known_findings.json, each with a witness replayed every run): "
+      "comprehension over a RefList column / record-set attribute; table id equal to a `functions` export (N, T: inference "
+      "through Ref columns); table renamed to/from IF etc. (function shadowed / its calls rewritten); loop variable named like "
+      "a table; column renamed to order_by/sort_by; order_by key column rebuilt during the rename (stale column object in the "
+      "cached SortKey). A rejected rename bundle is no rename (the case continues on a rebuilt "
+      "document).",
+      "Lean 4 theorems (structural induction over typing derivations, token lists and patches) + differential correspondence "
+      "through a live engine + direct before/after oracle")
+
+  reg("C30", "proof",
+      "flushAll_perm_invariant' / stepFinish_perm_invariant / changesToActions_order_invariant: the calc flush "
+      "(ActionSummary.convert_deltas_to_actions and _changes_to_actions) gives the same stored and undo actions whatever "
+      "the insertion order of the summary's dicts (tables, column deltas, row deltas, presence maps, rename maps) - the "
+      "Python dict/set iteration order cannot influence it; with C13's sorted_perm_invariant (lookup results do not depend "
+      "on set iteration order). Partial: sites outside the models (useractions cascades iterating sets of Records) are "
+      "only searched. Search (the property itself): identical histories replayed in separate processes under different "
+      "PYTHONHASHSEED values; replies (stored, undo, direct, retValues) and all tables must be identical bundle by bundle.",
+      "documents without time/randomness-dependent formulas; error replies compared by exception class.",
+      "Lean 4 theorems (order-independence of the flush) + cross-process differential under PYTHONHASHSEED")
